@@ -326,7 +326,7 @@ func runIDCase(ic IDCase) (viol []string, note string) {
 	return viol, ""
 }
 
-func TestC09IDs(t *testing.T) {
+func runIDTest(t *testing.T, prop, test string) {
 	if os.Getenv("VERIF_MINIMIZE_IN") != "" {
 		return
 	}
@@ -340,19 +340,19 @@ func TestC09IDs(t *testing.T) {
 			t.Skip("id hook not compiled in")
 		}
 		if v, _ := runIDCase(ic); len(v) > 0 {
-			t.Fatalf("REPLAY-VIOLATION C09: %v", v)
+			t.Fatalf("REPLAY-VIOLATION %s: %v", prop, v)
 		}
 		return
 	}
-	stats := NewStats("C09", "HOOK/forced-id-collisions", "a store with pruned (tombstoned, optionally compacted away) and live items; the id generator is made to propose a drawn sequence of candidates (pruned ids, live ids, fresh ids) through the verif build-tag hook ERGO_VERIF_IDS while `new task` (with state), `new epic` or `plan` (1 epic + 3 tasks + 2 edges) runs; oracle: no reported id equals a tombstoned or a live id or repeats, every reported item can be shown, no live item is lost or overwritten, and the item count grows by exactly the number of reported ids; non-trivial = at least one candidate is a pruned id that is still tombstoned; distinct = distinct (command, candidate roles, sizes)")
+	stats := NewStats(prop, "HOOK/forced-id-collisions", "a store with pruned (tombstoned, optionally compacted away) and live items; the id generator is made to propose a drawn sequence of candidates (pruned ids, live ids, fresh ids) through the verif build-tag hook ERGO_VERIF_IDS while `new task` (with state), `new epic` or `plan` (1 epic + 3 tasks + 2 edges) runs; oracle: no reported id equals a tombstoned or a live id or repeats, every reported item can be shown, no live item is lost or overwritten, and the item count grows by exactly the number of reported ids; non-trivial = at least one candidate is a pruned id that is still tombstoned; distinct = distinct (command, candidate roles, sizes)")
 	defer stats.Flush()
 	hook := hookWorks()
 	if !hook {
 		stats.Label("id_hook_unavailable_cases_are_vacuous")
 	}
-	replayPath := ReplayOutPath("C09")
+	replayPath := ReplayOutPath(prop)
 	rapid.Check(t, func(rt *rapid.T) {
-		ic := IDCase{Property: "C09", Engine: "HOOK", Test: "TestC09IDs"}
+		ic := IDCase{Property: prop, Engine: "HOOK", Test: test}
 		ic.Tasks = between(rt, 2, 7, "tasks")
 		ic.Epics = between(rt, 0, 2, "epics")
 		ic.Command = oneOf(rt, []string{"new_task", "new_epic", "plan", "plan"}, "command")
@@ -364,11 +364,11 @@ func TestC09IDs(t *testing.T) {
 		if len(viol) > 0 && hook {
 			var vs []Violation
 			for _, m := range viol {
-				vs = append(vs, Violation{"C09", m})
+				vs = append(vs, Violation{prop, m})
 			}
 			ic.Violations = vs
 			WriteReplay(replayPath, ic)
-			rt.Fatalf("C09 violated: %v", viol)
+			rt.Fatalf("%s violated: %v", prop, viol)
 		}
 		stats.Eval()
 		if note != "" {
@@ -389,3 +389,9 @@ func TestC09IDs(t *testing.T) {
 		stats.Sample(len(ic.Candidates), ic)
 	})
 }
+
+func TestC09IDs(t *testing.T) { runIDTest(t, "C09", "TestC09IDs") }
+
+// C16: "new ids (fresh, six upper-case characters)" - the same forced-collision experiment,
+// judged as a statement about what --json reports.
+func TestC16IDs(t *testing.T) { runIDTest(t, "C16", "TestC16IDs") }
